@@ -278,9 +278,9 @@ def rule_G3d(prog, fixture=False):
                             "source is read after an element of the destination has been written (one overlap-safe primitive, or "
                             "the source materialised first): 'as if the source had been copied before the first write'")
     methods = sorted([f for f in prog.functions.values() if f.cls and SLICE_CLASS.match(f.cls) and f.kind == "method" and not f.get("implicit")
-                      and _short(f.qn) == "operator=" and f.body() is not None and f.params and "slice_t<" in f.params[0].get("t", "")],
+                      and f.body() is not None and f.params and "slice_t<" in f.params[0].get("t", "")],
                      key=lambda f: (f.cls, f.line))
-    if not methods and not fixture:
+    if not [f for f in methods if _short(f.qn) == "operator="] and not fixture:
         res.broken.append("anchor vanished: no slice_t<T>::operator=(const [const_]slice_t<T>&) found")
         return res
     n = 0
@@ -288,6 +288,11 @@ def rule_G3d(prog, fixture=False):
         ctx = GuardCtx(prog, f, group_params=False)
         f.blocks
         sobj = ("parm", f.params[0]["n"])
+        # a private helper of the assignment that is only ever called where the arrays are known to differ
+        helper_different = False
+        if _short(f.qn) != "operator=":
+            cv = _alias_fact_at_every_call(prog, f)
+            helper_different = bool(cv) and cv[0] == "different"
         writes = [w for w in _element_writes(f, ctx) if not (w.k == "CXXOperatorCallExpr" and w.op == "=" and len(w.c) == 3
                                                              and w.c[1].strip_all().k == "UnaryOperator")]   # `*this = x` is one whole assignment
         reads = []
@@ -319,7 +324,7 @@ def rule_G3d(prog, fixture=False):
                 later = (rl[0] == wl[0] and rl[1] > wl[1]) or (rl[0] in after)
                 if not later:
                     continue
-                different = False
+                different = helper_different
                 for fact in f.facts_at(r):
                     if fact.belief:
                         continue
